@@ -378,3 +378,7 @@ mod tests {
         .assert_debug_eq(&vtx.frame_registers(999999));
     }
 }
+
+#[cfg(kani)]
+#[path = "/verif/hooks/vtx/lib.rs"]
+mod verif_hooks;
